@@ -42,6 +42,12 @@ fn cases_deviations(_rng: &mut Rng, sink: &mut dyn FnMut(J) -> bool) {
     list.push((base(json!({"_sd": ["#0"]})), vec![json!(["s", "o", {"_sd": ["#1"], "q": [{"...": "#2"}]}]), d_n0.clone(), d_el.clone()], None));
     list.push((base(json!({"_sd": ["#0"]})), vec![json!(["s", "o", {"_sd": ["#1"], "q": [{"...": "#2"}]}]), d_n0.clone(), d_el.clone()], Some(vec![1, 2])));
     list.push((base(json!({"_sd": ["#0"], "e": {}, "f": [], "_sd_alg": "sha-256"})), vec![json!(["s", "n", null])], None));
+    // falsy values as disclosed member values and disclosed array elements (must appear, at their position)
+    for v in [json!(null), json!(false), json!(0), json!(""), json!([]), json!({}), json!(0.0), json!("null")] {
+        list.push((base(json!({"_sd": ["#0"], "arr": [1, {"...": "#1"}, 3, {"...": "decoy"}, {"...": "#2"}]})), vec![json!(["s", "n", v.clone()]), json!(["s", v.clone()]), json!(["s", [v.clone(), {"k": v.clone()}]])], None));
+        list.push((base(json!({"arr": [{"...": "#0"}]})), vec![json!(["s", v.clone()])], None));
+        list.push((base(json!({"_sd": ["#0"]})), vec![json!(["s", "o", {"_sd": ["#1"], "a": [{"...": "#2"}, v.clone()]}]), json!(["s", "n", v.clone()]), json!(["s", v.clone()])], None));
+    }
     // ---- duplicate digests
     list.push((base(json!({"_sd": ["#0", "#0"]})), vec![d_n0.clone()], None));
     list.push((base(json!({"_sd": ["#0"], "o": {"_sd": ["#0"]}})), vec![d_n0.clone()], None));
